@@ -222,8 +222,18 @@ func c14() int {
 		atomic.AddInt64(&transitions, int64(len(h)))
 		for pos := 0; pos <= len(h); pos++ {
 			for pk := range ops {
-				for _, ik := range []string{"", "pv-key", "shared-key"} {
+				for _, ik := range []string{"", "pv-key", "shared-key", "prev-key"} {
 					baseK, withoutK := base, without
+					if ik == "prev-key" {
+						// the real operation right before the preview already used (and recorded) the key the preview carries
+						if pos == 0 || h[pos-1] < 0 {
+							continue
+						}
+						baseK = append([]c14Step{}, base...)
+						baseK[pos-1].IK = ik
+						withoutK = c14Exec(ops, baseK)
+						atomic.AddInt64(&traces, 1)
+					}
 					if ik == "shared-key" {
 						// the real operation right after the preview carries the same idempotency key as the preview
 						if pos >= len(h) || h[pos] < 0 {
